@@ -7,6 +7,12 @@ from core import call_impl
 
 
 def run(ctx):
+    _base(ctx)
+    if len(ctx.violations) <= 5:
+        _wide(ctx)
+
+
+def _base(ctx):
     import pyrepseq.distance as ds
     rng = ctx.rng
     ctx.rule = ('(a) levenshtein_neighbors / hamming_neighbors as yielded LISTS (order and duplicates visible) for every string of '
@@ -14,7 +20,10 @@ def run(ctx):
                 'letters and explicit variable_positions; (b) next_nearest_neighbors maxdistance 1..3; (c) find_neighbor_pairs, '
                 'find_neighbor_pairs_index, calculate_neighbor_numbers, isdist1, nndist_hamming on subsets of the short binary strings '
                 'and random amino-acid sets. non-trivial := the string has a run of repeated letters (the duplicate-suppression case) '
-                'or the reference set contains a neighbour')
+                'or the reference set contains a neighbour; (d) [audit widening] the same functions with omitted / positional / keyword '
+                'arguments, other container kinds for alphabet, positions, sequences and references, long strings (127..300), letters '
+                'outside the alphabet, repeated calls on objects modified in place, larger sparse collections, amino-acid '
+                'next-nearest neighbourhoods and long / full-alphabet nndist_hamming cases')
     L = 4 if ctx.quick else 6
     strs = []
     for alpha in ('A', 'AC', 'ACD'):
@@ -273,6 +282,597 @@ def run(ctx):
                           dict(func='nndist_hamming', x=x, ref=ref, maxdist=md), site='distance.nndist_hamming')
     ctx.assumptions += ['find_neighbor_pairs_index / calculate_neighbor_numbers on duplicate-free input (docstring requirement)',
                         'nndist_hamming: the enumeration loops are modelled (subs2 / subs3) and proved equal to the capped minimum for references over the amino-acid letters']
+
+
+# ---------------------------------------------------------------------------------------------------------------------------------
+# Audit widening: argument kinds, container kinds, sizes and call histories of the same functions that the base part never generated.
+# Every expected value comes from the proved model (oracle) or from the stated specification computed with the proved one-step
+# generators; nothing is taken from the implementation.
+def _pc(ps):
+    """canonical form of a list of sequence pairs: sorted list of sorted (str, str)"""
+    return sorted(tuple(sorted((str(a), str(b)))) for a, b in ps)
+
+
+def _mk_alphabet(kind, al):
+    return {'str': lambda: al, 'kw': lambda: al, 'list': lambda: list(al), 'tuple': lambda: tuple(al),
+            'ndarray': lambda: np.array(list(al)), 'dict': lambda: dict.fromkeys(al), 'set': lambda: set(al),
+            'frozenset': lambda: frozenset(al)}[kind]()
+
+
+def _mk_positions(kind, pos):
+    return {'list': lambda: list(pos), 'kw_list': lambda: list(pos), 'positional': lambda: list(pos), 'tuple': lambda: tuple(pos),
+            'ndarray': lambda: np.array(pos, dtype=np.int64), 'np_ints_in_list': lambda: [np.int64(i) for i in pos],
+            'generator': lambda: (i for i in pos), 'iter': lambda: iter(list(pos)), 'dict': lambda: dict.fromkeys(pos),
+            'set': lambda: set(pos), 'range': lambda: range(pos[0], pos[-1] + 1) if pos else range(0)}[kind]()
+
+
+def _mk_container(kind, ss, rng):
+    import pandas as pd
+    ss = list(ss)
+    if kind == 'list':
+        return ss
+    if kind == 'tuple':
+        return tuple(ss)
+    if kind == 'frozenset':
+        return frozenset(ss)
+    if kind == 'ndarray_U':
+        return np.array(ss, dtype=str)
+    if kind == 'ndarray_O':
+        return np.array(ss, dtype=object)
+    if kind == 'series_default':
+        return pd.Series(ss) if ss else pd.Series(ss, dtype=object)
+    if kind == 'series_object':
+        return pd.Series(ss, dtype=object)
+    if kind == 'series_shifted':
+        return pd.Series(ss, index=range(7, 7 + len(ss)), dtype=object)
+    if kind == 'series_permuted':
+        idx = list(range(len(ss)))
+        rng.shuffle(idx)
+        return pd.Series(ss, index=idx, dtype=object)
+    if kind == 'series_str':
+        return pd.Series(ss, index=['r%d' % i for i in range(len(ss))], dtype=object)
+    raise ValueError(kind)
+
+
+def _call_generator(ds, c):
+    """one call of levenshtein_neighbors / hamming_neighbors as described by the case dict c; returns the generator"""
+    x = np.str_(c['x']) if c.get('xkind') == 'np.str_' else c['x']
+    f = ds.levenshtein_neighbors if c['func'] == 'lev' else ds.hamming_neighbors
+    args, kw = [x], {}
+    ak, pk = c['al_kind'], c.get('pos_kind')
+    if ak == 'kw':
+        kw['alphabet'] = c['al']
+    elif ak != 'omitted':
+        args.append(_mk_alphabet(ak, c['al']))
+    if pk is not None:
+        if pk == 'positional':
+            args.append(_mk_positions(pk, c['pos']))          # third positional argument (the alphabet is positional then)
+        else:
+            kw['variable_positions'] = _mk_positions(pk, c['pos'])
+    return f(*args, **kw)
+
+
+def _gen_request(c):
+    if c['func'] == 'lev':
+        return ('api_lev_nbrs', [c['al'], c['x']])
+    return ('api_ham_nbrs_pos', [c['al'], list(range(len(c['x']))) if c.get('pos') is None else list(c['pos']), c['x']])
+
+
+def _reach_spec(orc, ham, al, x, m, pos=None):
+    """{y <> x : y is reached from x by 1..m steps of the PROVED one-step generator} - the right-hand side of C12_next_nearest,
+    computed as a plain union over the oracle's lev_nbrs / ham_nbrs_pos lists"""
+    seen, frontier, out = {x}, [x], set()
+    for _ in range(m):
+        if ham:
+            reqs = [('api_ham_nbrs_pos', [al, list(range(len(y))) if pos is None else list(pos), y]) for y in frontier]
+        else:
+            reqs = [('api_lev_nbrs', [al, y]) for y in frontier]
+        new = set()
+        for o in orc.run_parallel(reqs):
+            new.update(o)
+        out |= new
+        frontier = sorted(new - seen)          # strings seen before were expanded before: their neighbours are in `out` already
+        seen |= new
+    out.discard(x)
+    return out
+
+
+def _wide(ctx):
+    import functools
+    import itertools as it
+    import pyrepseq.distance as ds
+    rng = ctx.rng
+    orc = ctx.oracle
+    AA = gens.AA
+
+    def rstr(al, n, runs=True):
+        return ''.join(rng.choice(al) * (rng.randint(1, 3) if runs else 1) for _ in range(n))
+
+    # ------------------------------------------------------------------------------------------------ W1: the two generators
+    gc = []
+    nrep = 1 if ctx.quick else 8
+    for _ in range(10 * nrep):                     # alphabet omitted (the default amino-acid alphabet), all three call forms
+        x = rstr(AA if rng.random() < 0.6 else 'ACY', rng.randint(0, 5))
+        gc.append(dict(func='lev', x=x, al=AA, al_kind='omitted'))
+        gc.append(dict(func='ham', x=x, al=AA, al_kind='omitted'))
+        pos = sorted(rng.sample(range(len(x)), rng.randint(0, len(x))))
+        gc.append(dict(func='ham', x=x, al=AA, al_kind='omitted', pos=pos, pos_kind='kw_list'))
+    alphabets = ['A', 'AC', 'CA', 'ACD', 'ACDE', AA, AA[::-1], 'acgt', '01', 'A*-', '_Xx', 'αβγ', 'Aé中']
+    for al in alphabets * nrep:                    # alphabet container kinds; letters of every sort; x with letters outside the alphabet
+        for ak in ('kw', 'list', 'tuple', 'ndarray', 'dict', 'set', 'frozenset', 'str'):
+            inside = rng.random() < 0.6
+            x = rstr(al if inside else al + 'XZ', rng.randint(0, 5))
+            if rng.random() < 0.15:
+                x = rstr('XZ', rng.randint(1, 3))                          # no letter of x is in the alphabet
+            xkind = 'np.str_' if rng.random() < 0.25 else 'str'
+            if rng.random() < 0.5:
+                gc.append(dict(func='lev', x=x, al=al, al_kind=ak, xkind=xkind))
+            else:
+                pos = sorted(rng.sample(range(len(x)), rng.randint(0, len(x))))
+                pk = rng.choice([None, 'kw_list', 'tuple', 'ndarray', 'generator', 'iter', 'dict', 'set', 'range', 'np_ints_in_list'] +
+                                (['positional'] if ak != 'kw' else []))
+                if pk == 'range' and pos:
+                    pos = list(range(pos[0], pos[-1] + 1))
+                gc.append(dict(func='ham', x=x, al=al, al_kind=ak, xkind=xkind, pos=None if pk is None else pos, pos_kind=pk))
+    for k, pk in enumerate(['kw_list', 'tuple', 'ndarray', 'generator', 'iter', 'dict', 'set', 'range', 'np_ints_in_list', 'positional']):
+        # every positions kind at least once, with an EMPTY, a one-element and a shuffled several-element selection
+        x = rstr(AA, 6, runs=False)
+        for pos in ([], [rng.randrange(len(x))], rng.sample(range(len(x)), 4)):
+            if pk == 'range' and pos:
+                pos = list(range(min(pos), max(pos) + 1))
+            gc.append(dict(func='ham', x=x, al=AA if k % 2 else 'ACDY', al_kind='str', pos=pos, pos_kind=pk))
+    # long strings: lengths around 127/128 and 255/256 and beyond, runs of every length, homopolymers; positions beyond 127 / 255
+    longs = [(al, n) for al in ('AC', 'ACD') for n in (127, 128, 129, 255, 256, 257, rng.randint(258, 320))] + \
+            [('A', 256), ('AC', 'homopolymer'), (AA, rng.randint(128, 140))]
+    if not ctx.quick:
+        longs += [(AA, 255), (AA, 256), (AA, rng.randint(257, 300)), ('ACDE', 1000)]
+    for al, n in longs:
+        if n == 'homopolymer':
+            x = 'A' * rng.randint(256, 300)
+        else:
+            x = rstr(al, n)[:n] if rng.random() < 0.7 else ''.join(rng.choice(al) for _ in range(n))
+        gc.append(dict(func='lev', x=x, al=al, al_kind='str'))
+        pos = sorted(set([0, len(x) - 1] + [p for p in (126, 127, 128, 254, 255, 256) if p < len(x)] + rng.sample(range(len(x)), 5)))
+        gc.append(dict(func='ham', x=x, al=al, al_kind='str', pos=pos, pos_kind=rng.choice(['kw_list', 'ndarray', 'tuple'])))
+        gc.append(dict(func='ham', x=x, al=al, al_kind='str', pos=None, pos_kind=None))
+    outs = orc.run_parallel([_gen_request(c) for c in gc])
+    for c, o in zip(gc, outs):
+        unordered = c['al_kind'] in ('set', 'frozenset') or c.get('pos_kind') == 'set'
+        g = call_impl(lambda: list(_call_generator(ds, c)))
+        ctx.case(nontrivial_key=('wgen', repr(sorted(c.items(), key=str))) if c['x'] else None)
+        ctx.count('W1_alphabet_' + c['al_kind'])
+        if c['func'] == 'ham':
+            ctx.count('W1_positions_%s' % c.get('pos_kind'))
+        if len(c['x']) >= 127:
+            ctx.count('W1_long_x_%s' % ('>=256' if len(c['x']) >= 256 else '127..255'))
+        if any(ch not in c['al'] for ch in c['x']):
+            ctx.count('W1_x_has_letters_outside_alphabet')
+        ok = g[0] == 'ok' and ((sorted(g[1]) == sorted(o)) if unordered else (g[1] == o)) and all(isinstance(y, str) for y in g[1])
+        if not ok:
+            if g[0] != 'ok':
+                detail = g[1]
+            else:
+                detail = dict(n_got=len(g[1]), n_expected=len(o), missing=sorted(set(o) - set(g[1]))[:3], spurious=sorted(set(g[1]) - set(o))[:3],
+                              duplicates=len(g[1]) - len(set(g[1])), same_multiset=sorted(g[1]) == sorted(o))
+            name = 'levenshtein_neighbors' if c['func'] == 'lev' else 'hamming_neighbors'
+            xs = c['x'] if len(c['x']) <= 40 else c['x'][:20] + '...(%d letters)' % len(c['x'])
+            ctx.violation('property', '%s(%r, alphabet %r given as %s%s) differs from the proved generator: %s' % (
+                name, xs, c['al'], c['al_kind'], '' if c.get('pos_kind') is None else ', variable_positions=%s given as %s' % (c['pos'], c['pos_kind']),
+                detail), dict(c, func=name, detail=str(detail)), site='distance.%s[argument kinds]' % name)
+            if len(ctx.violations) > 5:
+                return
+    # two live generators advanced alternately, and a partly consumed generator next to a fresh one on the same arguments
+    short = [(c, o) for c, o in zip(gc, outs) if len(c['x']) <= 12 and c['al_kind'] not in ('set', 'frozenset') and c.get('pos_kind') != 'set']
+    for _ in range(20 * nrep):
+        (c1, o1), (c2, o2) = rng.choice(short), rng.choice(short)
+        if rng.random() < 0.3:
+            c2, o2 = c1, o1
+
+        def interleaved():
+            g1, g2 = _call_generator(ds, c1), _call_generator(ds, c2)
+            r1, r2 = [], []
+            for a, b in it.zip_longest(g1, g2):
+                if a is not None:
+                    r1.append(a)
+                if b is not None:
+                    r2.append(b)
+            return r1, r2
+
+        def partly():
+            g1 = _call_generator(ds, c1)
+            head = list(it.islice(g1, 2))
+            fresh = list(_call_generator(ds, c1))
+            return head + list(g1), fresh
+        g = call_impl(interleaved)
+        h = call_impl(partly)
+        ctx.case(nontrivial_key=('wgen-interleaved', repr(c1), repr(c2)) if o1 and o2 else None)
+        ctx.count('W1_two_live_generators')
+        if g[0] != 'ok' or list(g[1]) != [o1, o2] or h[0] != 'ok' or list(h[1]) != [o1, o1]:
+            ctx.violation('property', 'two live neighbour generators (%s and %s) consumed alternately / a partly consumed one beside a fresh one '
+                          'do not each yield their own neighbourhood' % (c1, c2), dict(func='generators_interleaved', first=c1, second=c2),
+                          site='distance.generators[interleaved]')
+            break
+
+    # ------------------------------------------------------------------------------------------------ W2: next_nearest_neighbors
+    nc = []
+    nbkinds = ['generator', 'list', 'partial_positions', 'tuple', 'set', 'partial']
+    for al in ('A', 'AC', 'ACD'):
+        for x in [s for s in all_strings(al, 3)][::(2 if ctx.quick else 1)] + ['XA', 'X', 'ACAC']:
+            mk = ['omitted', 'kw', 'positional', 'kw'][len(nc) % 4]
+            m = 2 if mk == 'omitted' else rng.choice([1, 2, 3, 4, 4] if len(al) <= 2 or not ctx.quick else [1, 2, 3])
+            nbk = nbkinds[(len(nc) // 2) % len(nbkinds)]
+            if nbk == 'partial_positions' and len(x) < 2:
+                nbk = 'partial'
+            ham = nbk == 'partial_positions' or rng.random() < 0.4
+            pos = rng.sample(range(len(x)), rng.randint(1, len(x))) if nbk == 'partial_positions' else None
+            nc.append(dict(x=x, al=al, ham=ham, m=m, m_kind=mk, nb_kind=nbk, pos=pos))
+    # the amino-acid alphabet through the library's own default neighbourhood functions (maxdistance 2 = the documented default)
+    aa_cases = [('', False, 'omitted'), (rstr(AA, 1), False, 'omitted'), (rstr(AA, 2, False), False, 'omitted'), (rstr('AC', 1) * 2, False, 'positional'),
+                (rstr(AA, 3, False), True, 'omitted'), (rstr(AA, 4, False), True, 'kw'), (rstr(AA, 1), True, 'omitted')]
+    if not ctx.quick:
+        aa_cases += [(rstr(AA, 3, False), False, 'omitted'), (rstr(AA, 4), False, 'kw'), (rstr(AA, 6), True, 'omitted')]
+    for x, ham, mk in aa_cases:
+        nc.append(dict(x=x, al=AA, ham=ham, m=2, m_kind=mk, nb_kind='library_default_alphabet', pos=None))
+    if not ctx.quick:
+        nc.append(dict(x=rng.choice(AA), al=AA, ham=False, m=3, m_kind='kw', nb_kind='library_default_alphabet', pos=None))
+        nc.append(dict(x=rstr(AA, 3, False), al=AA, ham=True, m=3, m_kind='positional', nb_kind='library_default_alphabet', pos=None))
+    for c in nc:
+        al, ham, x, m = c['al'], c['ham'], c['x'], c['m']
+        want = _reach_spec(orc, ham, al, x, m, c['pos'])
+        base = ds.hamming_neighbors if ham else ds.levenshtein_neighbors
+        nbk = c['nb_kind']
+        if nbk == 'library_default_alphabet':
+            nb = base
+        elif nbk == 'partial':
+            nb = functools.partial(base, alphabet=al)
+        elif nbk == 'partial_positions':
+            nb = functools.partial(base, alphabet=al, variable_positions=list(c['pos']))
+        else:
+            conv = dict(generator=iter, list=list, tuple=tuple, set=set)[nbk]
+            nb = (lambda conv: lambda y: conv(list(base(y, al))))(conv)
+        if c['m_kind'] == 'omitted':
+            g = call_impl(lambda: ds.next_nearest_neighbors(x, nb))
+        elif c['m_kind'] == 'positional':
+            g = call_impl(lambda: ds.next_nearest_neighbors(x, nb, m))
+        else:
+            g = call_impl(lambda: ds.next_nearest_neighbors(x, neighborhood=nb, maxdistance=m))
+        ctx.case(nontrivial_key=('wnnn', repr(sorted(c.items(), key=str))) if want else None)
+        ctx.count('W2_maxdistance_%s' % c['m_kind'])
+        ctx.count('W2_neighborhood_%s' % nbk)
+        ctx.count('W2_maxdistance=%d' % m)
+        got = list(g[1]) if g[0] == 'ok' else None
+        if got is None or sorted(got) != sorted(want):
+            detail = g[1] if got is None else dict(n_got=len(got), n_expected=len(want), missing=sorted(want - set(got))[:4],
+                                                   spurious=sorted(set(got) - want)[:4], contains_x=x in got)
+            ctx.violation('property', 'next_nearest_neighbors(%r, %s neighbourhood over %r [%s%s], maxdistance %s) is not the set of strings within '
+                          '%d steps except x: %s' % (x, 'hamming' if ham else 'levenshtein', al, nbk, '' if c['pos'] is None else ' positions %s' % c['pos'],
+                                                     'omitted (default 2)' if c['m_kind'] == 'omitted' else '%d (%s)' % (m, c['m_kind']), m, detail),
+                          dict(c, func='next_nearest_neighbors', detail=str(detail)), site='distance.next_nearest_neighbors[argument kinds]')
+            if len(ctx.violations) > 5:
+                return
+
+    # ------------------------------------------------------------------------------------------------ W3: the set utilities
+    # (a) omitted / positional neighbourhood argument, (b) container kinds of the sequence collection, (c) frozenset references,
+    # (e) repeated sequences for calculate_neighbor_numbers.  Default alphabet throughout (the functions themselves are the neighbourhoods).
+    kinds = ['tuple', 'ndarray_U', 'ndarray_O', 'series_default', 'series_object', 'series_shifted', 'series_permuted', 'series_str', 'list', 'frozenset']
+    uc = []
+    for n in range(len(kinds) * (6 if ctx.quick else 40)):
+        root = rstr(AA, rng.randint(1, 7))
+        ss = list(dict.fromkeys(gens.mutate(rng, root, AA, rng.randint(0, 2)) for _ in range(rng.randint(1, 9))))
+        if n % 7 == 3:
+            ss = []
+        rng.shuffle(ss)
+        ham = (n // len(kinds) + n) % 2 == 0
+        ref = set(gens.mutate(rng, rng.choice(ss), AA, rng.randint(0, 2)) for _ in range(rng.randint(0, 6))) | set(ss[:len(ss) // 2]) if ss else set()
+        x = gens.mutate(rng, rng.choice(ss), AA, rng.randint(0, 2)) if ss else rstr(AA, 2)
+        rep = ss + [rng.choice(ss) for _ in range(rng.randint(1, 3))] if ss else []
+        rng.shuffle(rep)
+        uc.append(dict(ss=ss, ham=ham, ref=sorted(ref), x=x, rep=rep, kind=kinds[n % len(kinds)], nb_form=['omitted', 'positional', 'kw'][(n // len(kinds)) % 3]))
+    reqs = []
+    for c in uc:
+        ham, ss = c['ham'], c['ss']
+        reqs += [('api_find_pairs', [ham, AA, sorted(set(ss))]), ('api_neighbor_numbers', [ham, AA, ss, sorted(set(ss))]),
+                 ('api_neighbor_numbers', [ham, AA, ss, c['ref']]), ('api_neighbor_numbers', [ham, AA, c['rep'], c['ref']]),
+                 ('api_neighbor_numbers', [ham, AA, c['rep'], sorted(set(ss))]), ('api_isdist1', [ham, AA, c['x'], c['ref']])]
+    outs = orc.run_parallel(reqs)
+    for n, c in enumerate(uc):
+        fp, nn_self, nn_ref, nn_rep_ref, nn_rep_self, isd = outs[6 * n:6 * n + 6]
+        ham, ss, kind, form = c['ham'], c['ss'], c['kind'], c['nb_form']
+        nbf = ds.hamming_neighbors if ham else ds.levenshtein_neighbors
+        dflt_pairs = form == 'omitted' and ham             # find_neighbor_pairs(_index): default neighbourhood is hamming_neighbors
+        dflt_lev = form == 'omitted' and not ham           # calculate_neighbor_numbers / isdist1: default is levenshtein_neighbors
+
+        def nb_args(default_applies, npos):
+            """(args, kwargs) that hand the neighbourhood over: omitted where the default is the wanted one, else positional / keyword"""
+            if form == 'omitted' and default_applies:
+                return [], {}
+            if form == 'positional':
+                return [None] * npos + [nbf], {}
+            return [], dict(neighborhood=nbf)
+        cont = _mk_container(kind, ss, rng)
+        ctx.case(nontrivial_key=('wutil', kind, tuple(ss), ham, form) if fp else None)
+        ctx.count('W3_seqs_as_' + kind)
+        ctx.count('W3_neighborhood_%s' % form)
+        if not ss:
+            ctx.count('W3_empty_collection')
+        rp = dict(seqs=ss, container=kind, hamming=ham, alphabet=AA, neighborhood_argument=form)
+        # find_neighbor_pairs
+        a, k = nb_args(ham, 0)
+        g = call_impl(lambda: ds.find_neighbor_pairs(cont, *a, **k))
+        if g[0] != 'ok' or _pc(g[1]) != _pc(fp):
+            ctx.violation('property', 'find_neighbor_pairs(%s of %s, neighbourhood %s [%s]) = %s, expected each unordered distance-1 pair once: %s' % (
+                kind, ss, 'hamming' if ham else 'levenshtein', form if not (form == 'omitted' and not ham) else 'kw', str(g)[:200], fp),
+                dict(rp, func='find_neighbor_pairs'), site='distance.find_neighbor_pairs[containers]')
+        if kind != 'frozenset':
+            order = [str(s) for s in ss]
+            pset = set(_pc(fp))
+            exp_idx = sorted((i, j) for i in range(len(order)) for j in range(len(order)) if i != j and tuple(sorted((order[i], order[j]))) in pset)
+            g = call_impl(lambda: ds.find_neighbor_pairs_index(cont, *a, **k))
+            gi = sorted((int(p), int(q)) for p, q in g[1]) if g[0] == 'ok' else None
+            if gi != exp_idx:
+                ctx.violation('property', 'find_neighbor_pairs_index(%s of %s, neighbourhood %s) = %s, expected the positions of the distance-1 partners %s' % (
+                    kind, ss, 'hamming' if ham else 'levenshtein', str(g)[:200], exp_idx),
+                    dict(rp, func='find_neighbor_pairs_index'), site='distance.find_neighbor_pairs_index[containers]')
+            # calculate_neighbor_numbers: reference omitted / None positional; explicit frozenset or set; repeated sequences in seqs
+            if form == 'positional':
+                g = call_impl(lambda: ds.calculate_neighbor_numbers(cont, None, nbf))
+            elif dflt_lev:
+                g = call_impl(lambda: ds.calculate_neighbor_numbers(cont))
+            else:
+                g = call_impl(lambda: ds.calculate_neighbor_numbers(cont, neighborhood=nbf))
+            if g[0] != 'ok' or [int(v) for v in g[1]] != nn_self:
+                ctx.violation('property', 'calculate_neighbor_numbers(%s of %s, neighbourhood %s [%s]) = %s, expected %s' % (
+                    kind, ss, 'hamming' if ham else 'levenshtein', form, str(g)[:200], nn_self),
+                    dict(rp, func='calculate_neighbor_numbers'), site='distance.calculate_neighbor_numbers[containers]')
+            rkind = 'frozenset' if rng.random() < 0.5 else 'set'
+            ref = frozenset(c['ref']) if rkind == 'frozenset' else set(c['ref'])
+            ctx.count('W3_reference_as_' + rkind)
+            repc = _mk_container(kind, c['rep'], rng)
+            for label, seqs_c, seqs_l, want in (('', cont, ss, nn_ref), (' with repeated sequences', repc, c['rep'], nn_rep_ref)):
+                if form == 'positional':
+                    g = call_impl(lambda: ds.calculate_neighbor_numbers(seqs_c, ref, nbf))
+                elif dflt_lev:
+                    g = call_impl(lambda: ds.calculate_neighbor_numbers(seqs_c, reference=ref))
+                else:
+                    g = call_impl(lambda: ds.calculate_neighbor_numbers(seqs_c, reference=ref, neighborhood=nbf))
+                if g[0] != 'ok' or [int(v) for v in g[1]] != want or sorted(ref) != c['ref']:
+                    ctx.violation('property', 'calculate_neighbor_numbers(%s of %s%s, reference=%s(%s), neighbourhood %s [%s]) = %s, expected %s; the '
+                                  'reference holds %s afterwards' % (kind, seqs_l, label, rkind, c['ref'], 'hamming' if ham else 'levenshtein', form,
+                                                                     str(g)[:200], want, sorted(ref)),
+                                  dict(rp, func='calculate_neighbor_numbers', seqs=seqs_l, reference=c['ref'], reference_container=rkind),
+                                  site='distance.calculate_neighbor_numbers[containers]')
+            if c['rep']:
+                ctx.count('W3_neighbor_numbers_repeated_seqs')
+                g = call_impl(lambda: ds.calculate_neighbor_numbers(repc, neighborhood=nbf))
+                if g[0] != 'ok' or [int(v) for v in g[1]] != nn_rep_self:
+                    ctx.violation('property', 'calculate_neighbor_numbers(%s of %s with repeated sequences, neighbourhood %s) = %s, expected the number of '
+                                  'distinct distance-1 partners %s' % (kind, c['rep'], 'hamming' if ham else 'levenshtein', str(g)[:200], nn_rep_self),
+                                  dict(rp, func='calculate_neighbor_numbers', seqs=c['rep']), site='distance.calculate_neighbor_numbers[repeated seqs]')
+        # isdist1: reference set / frozenset, x possibly a numpy string, neighbourhood omitted / positional / keyword
+        ref = frozenset(c['ref']) if rng.random() < 0.5 else set(c['ref'])
+        x = np.str_(c['x']) if rng.random() < 0.3 else c['x']
+        a, k = nb_args(not ham, 0)
+        g1 = call_impl(lambda: ds.isdist1(x, ref, *a, **k))
+        g2 = call_impl(lambda: ds.isdist1(x, ref, *a, **k))
+        for g in (g1, g2):
+            if g[0] != 'ok' or bool(g[1]) != isd or sorted(ref) != c['ref']:
+                ctx.violation('property', 'isdist1(%r, %s(%s), neighbourhood %s [%s]) = %s, expected %s' % (
+                    c['x'], type(ref).__name__, c['ref'], 'hamming' if ham else 'levenshtein', form, g, isd),
+                    dict(rp, func='isdist1', x=c['x'], reference=c['ref'], reference_container=type(ref).__name__), site='distance.isdist1[argument kinds]')
+                break
+        if len(ctx.violations) > 5:
+            return
+
+    # (d) ONE reference set / ONE sequence list modified in place between calls: every call must answer for what the object holds then
+    hc = []
+    for n in range(16 if ctx.quick else 160):
+        ham = n % 2 == 1
+        L = rng.randint(3, 6)
+        root = rstr(AA, L, False)
+
+        def mut(s, k=1, ham=ham):
+            if not ham:
+                return gens.mutate(rng, s, AA, k)
+            idx = set(rng.sample(range(len(s)), min(k, len(s))))          # substitutions only: lengths stay equal
+            return ''.join(rng.choice(AA) if i in idx else ch for i, ch in enumerate(s))
+        ss = list(dict.fromkeys([root] + [mut(root, rng.randint(1, 2)) for _ in range(rng.randint(2, 5))]))
+        x = mut(root, rng.randint(0, 2))
+        hist, cur_ref, cur_ss = [], set(mut(root, 2) for _ in range(2)), list(ss)
+        for step in range(5):
+            op = ['none', 'ref.add', 'seqs.append', 'ref.discard', 'seqs[0]='][step]
+            if op == 'ref.add':
+                arg = mut(rng.choice(cur_ss + [x]), 1)
+                cur_ref = cur_ref | {arg}
+            elif op == 'ref.discard':
+                arg = rng.choice(sorted(cur_ref))
+                cur_ref = cur_ref - {arg}
+            elif op == 'seqs.append':
+                arg = mut(rng.choice(cur_ss), 1)
+                while arg in cur_ss:
+                    arg = arg + 'W'
+                cur_ss = cur_ss + [arg]
+            elif op == 'seqs[0]=':
+                arg = mut(cur_ss[-1], 1)
+                while arg in cur_ss:
+                    arg = arg + 'Y'
+                cur_ss = [arg] + cur_ss[1:]
+            else:
+                arg = None
+            hist.append((op, arg, sorted(cur_ref), list(cur_ss)))
+        hc.append(dict(ham=ham, x=x, ss=ss, hist=hist, seqs_kind='ndarray_O' if n % 4 == 3 else 'list'))
+    reqs = []
+    for c in hc:
+        for op, arg, r, s in c['hist']:
+            reqs += [('api_neighbor_numbers', [c['ham'], AA, s, r]), ('api_isdist1', [c['ham'], AA, c['x'], r]), ('api_nndist_ham', [4, c['x'], r]),
+                     ('api_find_pairs', [c['ham'], AA, sorted(set(s))]), ('api_neighbor_numbers', [c['ham'], AA, s, sorted(set(s))])]
+    outs = orc.run_parallel(reqs)
+    k = 0
+    for c in hc:
+        ham, x = c['ham'], c['x']
+        nbf = ds.hamming_neighbors if ham else ds.levenshtein_neighbors
+        R = set(c['hist'][0][2])
+        S = list(c['ss']) if c['seqs_kind'] == 'list' else np.array(c['ss'], dtype=object)
+        trail = []
+        for op, arg, r, s in c['hist']:
+            nn_ref, isd, nnd, fp, nn_self = outs[k:k + 5]
+            k += 5
+            if op == 'ref.add':
+                R.add(arg)
+            elif op == 'ref.discard':
+                R.discard(arg)
+            elif op == 'seqs.append':
+                if isinstance(S, list):
+                    S.append(arg)
+                else:
+                    S = np.append(S, np.array([arg], dtype=object))       # arrays cannot grow in place: a new array object here
+            elif op == 'seqs[0]=':
+                S[0] = arg
+            trail.append((op, arg))
+            ctx.case(nontrivial_key=('whist', ham, x, tuple(s), tuple(r), op) if any(nn_ref) or fp else None)
+            ctx.count('W3_call_after_in_place_' + op)
+            res = [('calculate_neighbor_numbers(seqs, reference=R)', call_impl(lambda: [int(v) for v in ds.calculate_neighbor_numbers(S, reference=R, neighborhood=nbf)]), nn_ref),
+                   ('isdist1(x, R)', call_impl(lambda: bool(ds.isdist1(x, R, neighborhood=nbf))), isd),
+                   ('find_neighbor_pairs(seqs)', call_impl(lambda: _pc(ds.find_neighbor_pairs(S, neighborhood=nbf))), _pc(fp)),
+                   ('calculate_neighbor_numbers(seqs)', call_impl(lambda: [int(v) for v in ds.calculate_neighbor_numbers(S, neighborhood=nbf)]), nn_self)]
+            pset = set(_pc(fp))
+            res.append(('find_neighbor_pairs_index(seqs)', call_impl(lambda: sorted((int(p), int(q)) for p, q in ds.find_neighbor_pairs_index(S, neighborhood=nbf))),
+                        sorted((i, j) for i in range(len(s)) for j in range(len(s)) if i != j and tuple(sorted((s[i], s[j]))) in pset)))
+            if ham:
+                res.append(('nndist_hamming(x, R)', call_impl(lambda: int(ds.nndist_hamming(x, R))), nnd))
+            for name, g, want in res:
+                if g != ('ok', want) or sorted(R) != r or [str(v) for v in S] != s:
+                    ctx.violation('property', '%s on ONE reference set R / ONE sequence %s modified in place between calls (history %s): now R = %s, '
+                                  'seqs = %s, x = %r, %s neighbourhood; got %s, expected %s; afterwards R = %s, seqs = %s' % (
+                                      name, c['seqs_kind'], trail, r, s, x, 'hamming' if ham else 'levenshtein', str(g)[:200], want, sorted(R), [str(v) for v in S]),
+                                  dict(func='history', call=name, hamming=ham, x=x, initial_seqs=c['ss'], initial_reference=c['hist'][0][2], history=trail,
+                                       seqs_container=c['seqs_kind'], alphabet=AA), site='distance.utilities[objects modified in place between calls]')
+                    break
+        if len(ctx.violations) > 5:
+            return
+
+    # (f) larger sparse collections (clonal families, a few hundred sequences), every utility on the same collection
+    for ham in (False, True):
+        nseq = 120 if ctx.quick else 450
+        rep = list(dict.fromkeys(gens.repertoire(rng, nseq, AA, maxmut=2 if not ham else 1, minlen=4)))
+        if ham:       # substitutions only keep the lengths equal inside a family: many Hamming pairs
+            rep = list(dict.fromkeys(s[:3] + ''.join(rng.choice(AA) if rng.random() < 0.08 else ch for ch in s[3:]) for s in rep for _ in range(2)))[:nseq]
+        rng.shuffle(rep)
+        fp, nn = orc.run([('api_find_pairs', [ham, AA, sorted(rep)]), ('api_neighbor_numbers', [ham, AA, rep, sorted(rep)])])
+        nbf = ds.hamming_neighbors if ham else ds.levenshtein_neighbors
+        pset = set(_pc(fp))
+        pos = {s: i for i, s in enumerate(rep)}
+        ctx.case(nontrivial_key=('wlarge', ham, len(rep), len(fp)) if fp else None)
+        ctx.count('W3_larger_collection_%s_pairs' % ('hamming' if ham else 'levenshtein'), len(fp))
+        cont = rep if ham else np.array(rep, dtype=object)
+        checks = [('find_neighbor_pairs', call_impl(lambda: _pc(ds.find_neighbor_pairs(cont, neighborhood=nbf))), sorted(pset)),
+                  ('find_neighbor_pairs_index', call_impl(lambda: sorted((int(p), int(q)) for p, q in ds.find_neighbor_pairs_index(cont, neighborhood=nbf))),
+                   sorted([(pos[a], pos[b]) for a, b in pset] + [(pos[b], pos[a]) for a, b in pset])),
+                  ('calculate_neighbor_numbers', call_impl(lambda: [int(v) for v in ds.calculate_neighbor_numbers(cont, neighborhood=nbf)]), nn)]
+        for name, g, want in checks:
+            if g != ('ok', want):
+                diff = str(g)[:200] if g[0] != 'ok' or len(g[1]) != len(want) else [(i, a, b) for i, (a, b) in enumerate(zip(g[1], want)) if a != b][:4]
+                ctx.violation('property', '%s on %d sequences of clonal families (%s neighbourhood): differs from the model; first differences '
+                              '(position, got, expected) %s' % (name, len(rep), 'hamming' if ham else 'levenshtein', diff),
+                              dict(func=name, seqs=rep, hamming=ham, alphabet=AA), site='distance.%s[larger collection]' % name)
+    # (g) isdist1 on a long query whose only distance-1 reference is the first / last / a middle string the neighbourhood yields
+    for ham in (False, True):
+        x = rstr(AA, rng.randint(20, 30), False)
+        ball = orc.run([('api_ham_nbrs_pos', [AA, list(range(len(x))), x]) if ham else ('api_lev_nbrs', [AA, x])])[0]
+        far = [gens.mutate(rng, x, AA, 3) for _ in range(4)]
+        far = [f for f in far if f not in ball]
+        nbf = ds.hamming_neighbors if ham else ds.levenshtein_neighbors
+        picks = [('first yielded', ball[0]), ('last yielded', ball[-1]), ('middle', ball[len(ball) // 2]), ('beyond 256', ball[min(len(ball) - 1, 300)]), ('none', None)]
+        wants = orc.run([('api_isdist1', [ham, AA, x, sorted(set(far) | ({b} if b else set()))]) for _, b in picks])
+        for (label, b), want in zip(picks, wants):
+            ref = set(far) | ({b} if b else set())
+            g = call_impl(lambda: ds.isdist1(x, ref, nbf))
+            ctx.case(nontrivial_key=('wisd-long', ham, x, label))
+            ctx.count('W3_isdist1_long_query')
+            if g[0] != 'ok' or bool(g[1]) != want:
+                ctx.violation('property', 'isdist1(%r, %s, %s neighbourhood) = %s, expected %s (the only distance-1 reference is the %s neighbour)' % (
+                    x, sorted(ref), 'hamming' if ham else 'levenshtein', g, want, label),
+                    dict(func='isdist1', x=x, reference=sorted(ref), hamming=ham, alphabet=AA), site='distance.isdist1[long query]')
+
+    # ------------------------------------------------------------------------------------------------ W4: nndist_hamming
+    dc = []
+
+    def planted(x, d, where):
+        Lx = len(x)
+        if where == 'first':
+            idx = list(range(d))
+        elif where == 'last':
+            idx = list(range(Lx - d, Lx))
+        elif where == 'ends':
+            idx = set([0, Lx - 1][:d])
+            while len(idx) < d:
+                idx.add(rng.randrange(Lx))
+        else:
+            idx = rng.sample(range(Lx), d)
+        # letters of the whole alphabet, in particular its first and last letter
+        return ''.join((rng.choice([a for a in ('AY' if rng.random() < 0.4 else AA) if a != ch] or ['C']) if i in idx else ch) for i, ch in enumerate(x))
+
+    for n in range(40 if ctx.quick else 600):
+        md_kind = rng.choice(['omitted', 'kw', 'kw', 'positional'])
+        md = 4 if md_kind == 'omitted' else rng.randint(1, 4)
+        d = rng.choice([0, 1, 2, 2, 3, 3, 4, 5])
+        heavy = d >= 3 and md == 4                      # the triple loop runs (to the end when d >= 4): keep those strings short
+        Lx = rng.randint(max(d, 1), 8 if ctx.quick else 10) if heavy else rng.randint(max(d, 1), 16)
+        if heavy and n % 4:
+            Lx = rng.randint(max(d, 1), 6)
+        x = rstr(AA, Lx, False) if rng.random() < 0.8 else rstr('AY', Lx, False)
+        r0 = planted(x, d, rng.choice(['first', 'last', 'ends', 'random']))
+        ref = {r0}
+        for _ in range(rng.randint(0, 3)):               # farther equal-length references
+            ref.add(planted(x, min(Lx, d + rng.randint(1, 3)), 'random'))
+        # other lengths: proper prefixes / extensions of x and of the planted reference, the empty string
+        ref |= set(rng.sample([x[:-1], x[1:], x + rng.choice(AA), rng.choice(AA) + x, r0[:-1], r0 + 'A', '', x + x], rng.randint(0, 4)))
+        if d > 0:
+            ref.discard(x)
+        dc.append(dict(x=x, ref=sorted(ref), md=md, md_kind=md_kind, planted_distance=d, ref_kind='frozenset' if n % 3 == 0 else 'set',
+                       xkind='np.str_' if n % 5 == 0 else 'str'))
+    # the empty query, one-letter queries, the empty reference
+    for x, ref in [('', ['']), ('', ['A']), ('', []), ('A', []), ('A', ['Y']), ('Y', ['', 'AA']), ('AY', ['YA']), ('AYA', ['YAY', 'AY', 'AYAA'])]:
+        for md, mk in ((4, 'omitted'), (rng.randint(1, 3), 'kw')):
+            dc.append(dict(x=x, ref=sorted(ref), md=md, md_kind=mk, planted_distance=None, ref_kind='set', xkind='str'))
+    # a large reference (thousands of equal-length strings) with one planted near reference
+    for d in (1, 2, 3) if ctx.quick else (1, 2, 2, 3, 3, 4):
+        Lx = rng.randint(7, 9) if d >= 3 else rng.randint(10, 15)
+        x = rstr(AA, Lx, False)
+        big = set(''.join(rng.choice(AA) for _ in range(Lx)) for _ in range(3000))
+        big = {r for r in big if sum(a != b for a, b in zip(r, x)) > d} | {planted(x, d, 'random')}
+        dc.append(dict(x=x, ref=sorted(big), md=4, md_kind='omitted', planted_distance=d, ref_kind='set', xkind='str', large=True))
+    wants = orc.run_parallel([('api_nndist_ham', [c['md'], c['x'], c['ref']]) for c in dc])
+    for c, want in zip(dc, wants):
+        x = np.str_(c['x']) if c['xkind'] == 'np.str_' else c['x']
+        ref = frozenset(c['ref']) if c['ref_kind'] == 'frozenset' else set(c['ref'])
+        if c['md_kind'] == 'omitted':
+            f = lambda: ds.nndist_hamming(x, ref)
+        elif c['md_kind'] == 'positional':
+            f = lambda: ds.nndist_hamming(x, ref, c['md'])
+        else:
+            f = lambda: ds.nndist_hamming(seq=x, reference=ref, maxdist=c['md'])
+        g1 = call_impl(f)
+        g2 = call_impl(f) if not (c['planted_distance'] or 0) >= 3 else g1            # the same objects again (cheap cases only)
+        ctx.case(nontrivial_key=('wnndist', c['x'], tuple(c['ref'][:8]), c['md'], c['md_kind']) if want < c['md'] else None)
+        ctx.count('W4_maxdist_%s' % c['md_kind'])
+        ctx.count('W4_nndist=%d' % want)
+        ctx.count('W4_query_length_%s' % ('0' if not c['x'] else '1..5' if len(c['x']) <= 5 else '6..10' if len(c['x']) <= 10 else '11..16'))
+        if c.get('large'):
+            ctx.count('W4_large_reference')
+        for g in (g1, g2):
+            if g[0] != 'ok' or int(g[1]) != want or sorted(ref) != c['ref']:
+                rshow = c['ref'] if len(c['ref']) <= 12 else '%d strings incl. %s' % (len(c['ref']), [r for r in c['ref'] if len(r) == len(c['x']) and
+                                                                                                 sum(a != b for a, b in zip(r, c['x'])) <= 4][:3])
+                ctx.violation('property', 'nndist_hamming(%r, %s(%s), maxdist %s) = %s, expected min(nearest equal-length Hamming distance, maxdist) = %d' % (
+                    c['x'], c['ref_kind'], rshow, 'omitted (default 4)' if c['md_kind'] == 'omitted' else '%d (%s)' % (c['md'], c['md_kind']), g, want),
+                    dict(func='nndist_hamming', x=c['x'], ref=c['ref'], maxdist=c['md'], maxdist_argument=c['md_kind'], reference_container=c['ref_kind'],
+                         x_type=c['xkind']), site='distance.nndist_hamming[argument kinds]')
+                break
+        if len(ctx.violations) > 5:
+            return
+    ctx.assumptions += ['[widening] alphabets and variable_positions are re-iterable collections or (positions only) one-shot iterators; duplicate-free '
+                        'alphabets / positions; references are set / frozenset objects; sequence collections are list, tuple, ndarray or pandas Series '
+                        '(positions, not labels, are the indices); maxdistance >= 1; 1 <= maxdist <= 4']
 
 
 def replay(ctx, obj):
